@@ -579,6 +579,19 @@ func (c *FailoverController) executeFailback(reason string) {
 			zap.Duration("duration", c.config.GracePeriod),
 		)
 		time.Sleep(c.config.GracePeriod)
+
+		// The partner may have failed, or the failback may have been canceled,
+		// while traffic was draining: re-validate before giving up the active role.
+		c.mu.Lock()
+		if c.state != FailoverStateFailbackPending || !c.healthMonitor.IsPartnerHealthy() {
+			if c.state == FailoverStateFailbackPending {
+				c.state = FailoverStateComplete
+			}
+			c.mu.Unlock()
+			c.logger.Warn("Partner not healthy after grace period, canceling failback")
+			return
+		}
+		c.mu.Unlock()
 	}
 
 	// Call role change callback
